@@ -7,7 +7,10 @@
 (*           of the steps (once or twice),                                 *)
 (*   slot 1  is its twin: same inputs, never polled before the end,        *)
 (*   slot 2  is a clone of slot 0 taken at a nondeterministic step and fed *)
-(*           the same later inputs.                                        *)
+(*           either the same later inputs or DIFFERENT ones (then a fresh  *)
+(*           slot 3 is built at the end and fed the clone's history: the   *)
+(*           clone must answer like it, and the original like its twin -   *)
+(*           feeding one never affects the other).                         *)
 (* (a poll is two consecutive last() calls, so repeated reads are always    *)
 (* covered).  Each macro step is a composition of SF actions (Update, Last, Clone).   *)
 (* At the end all live slots are read: by C17 the three answers agree.     *)
@@ -16,32 +19,42 @@ EXTENDS SF
 
 Steps == Scope.steps
 
-VARIABLES n, cloned
-varsT == <<slots, prog, n, cloned>>
+VARIABLES n, cloned, div
+varsT == <<slots, prog, n, cloned, div>>
 
 InitT == /\ \E k \in 1..Len(Cfgs) :
               /\ slots = [i \in Slots |-> IF i <= 2 THEN <<"live", k, <<>>>> ELSE <<"empty">>]
               /\ prog = <<<<"new", 0, Cfgs[k]>>, <<"new", 1, Cfgs[k]>>>>
-         /\ n = 0 /\ cloned = FALSE
+         /\ n = 0 /\ cloned = FALSE /\ div = FALSE
 
 Opt(b, s) == IF b THEN s ELSE <<>>
 
+Other(x) == Inputs[(x % Len(Inputs)) + 1]
+RECURSIVE Feed(_, _, _)
+Feed(slot, h, i) == IF i > Len(h) THEN <<>> ELSE <<<<"u", slot, h[i]>>>> \o Feed(slot, h, i + 1)
+
 StepT == /\ n < Steps
-         /\ \E x \in 1..Len(Inputs), polls \in {0, 2}, cl \in BOOLEAN :
+         /\ \E x \in 1..Len(Inputs), polls \in {0, 2}, cl \in BOOLEAN, dv \in BOOLEAN :
               LET v == Inputs[x]
                   doclone == cl /\ ~cloned
                   h0 == Append(slots[1][3], v)
-              IN  /\ prog' = prog \o <<<<"u", 0, v>>>> \o Opt(polls >= 1, <<<<"l", 0>>>>) \o Opt(polls = 2, <<<<"l", 0>>>>)
+                  v2 == IF div THEN Other(x) ELSE v
+              IN  /\ (dv => doclone)
+                  /\ prog' = prog \o <<<<"u", 0, v>>>> \o Opt(polls >= 1, <<<<"l", 0>>>>) \o Opt(polls = 2, <<<<"l", 0>>>>)
                                    \o Opt(doclone, <<<<"clone", 0, 2>>>>)
-                                   \o <<<<"u", 1, v>>>> \o Opt(cloned, <<<<"u", 2, v>>>>)
-                  /\ slots' = [i \in Slots |-> IF i <= 2 \/ cloned \/ doclone THEN <<"live", slots[1][2], h0>> ELSE slots[i]]
+                                   \o <<<<"u", 1, v>>>> \o Opt(cloned, <<<<"u", 2, v2>>>>)
+                  /\ slots' = [i \in Slots |-> IF i <= 2 \/ doclone THEN <<"live", slots[1][2], h0>>
+                                               ELSE IF i = 3 /\ cloned THEN <<"live", slots[3][2], Append(slots[3][3], v2)>>
+                                               ELSE slots[i]]
                   /\ cloned' = (cloned \/ doclone)
+                  /\ div' = (div \/ (doclone /\ dv))
                   /\ n' = n + 1
 
 FinishT == /\ n = Steps
            /\ prog' = prog \o <<<<"l", 0>>, <<"l", 1>>>> \o Opt(cloned, <<<<"l", 2>>>>)
+                            \o Opt(div, <<<<"new", 3, Cfgs[slots[1][2]]>>>> \o Feed(3, slots[3][3], 1) \o <<<<"l", 3>>>>)
            /\ n' = Steps + 1
-           /\ UNCHANGED <<slots, cloned>>
+           /\ UNCHANGED <<slots, cloned, div>>
 
 NextT == StepT \/ FinishT
 
